@@ -1,6 +1,8 @@
 package main
 
 import (
+	"strings"
+	"time"
 	"crypto/sha256"
 	"fmt"
 	"go/types"
@@ -14,6 +16,8 @@ type intrinsic func(e *Engine, st *State, args []Value, in ssa.Instruction) Valu
 const zz = "github.com/protolambda/zrnt/eth2/zzverif."
 
 var intrinsics = map[string]intrinsic{}
+
+var errorIface = types.Universe.Lookup("error").Type().Underlying().(*types.Interface)
 
 func (e *Engine) nondet(st *State, w int, kind string) *Term {
 	v := Var(fmt.Sprintf("nd%d_w%d", len(st.nd), w), w)
@@ -155,6 +159,7 @@ func (e *Engine) strongCheck(q []*Term) (string, *Solver) {
 			s = NewSolver(b, a...)
 			s.Name = name
 			s.AbsHeavyDiv = absHeavyDiv
+			s.HardLimit = time.Duration(e.strongT)*time.Millisecond + 45*time.Second
 			if name == "cvc5" {
 				s.send("(set-logic ALL)")
 			}
@@ -428,8 +433,57 @@ func init() {
 		}
 		return e.errorValue(st, msg)
 	}
-	intrinsics["fmt.Errorf"] = errStub
+	// fmt.Errorf: the message is not formatted, but an operand wrapped with %w stays reachable (fmt.wrapError), so that
+	// errors.Is / errors.Unwrap see through it as they do natively
+	intrinsics["fmt.Errorf"] = func(e *Engine, st *State, a []Value, in ssa.Instruction) Value {
+		msg := "error"
+		if s, ok := a[0].(string); ok {
+			msg = s
+		}
+		if strings.Contains(msg, "%w") && len(a) > 1 {
+			if sl, ok := a[1].(SliceV); ok && sl.Len > 0 {
+				if fp := e.prog.ImportedPackage("fmt"); fp != nil && fp.Type("wrapError") != nil {
+					o := e.obj(st, sl.Obj)
+					for i := 0; i < sl.Len; i++ {
+						if ifc, ok := o.cells[sl.Off+i*sl.Stride].(Iface); ok && ifc.T != nil && types.Implements(ifc.T, errorIface) {
+							id := e.alloc(st, []Value{msg, ifc}, "fmt.wrapError")
+							return Iface{T: types.NewPointer(fp.Type("wrapError").Type()), V: Ptr{Obj: id}}
+						}
+					}
+				}
+			}
+		}
+		return e.errorValue(st, msg)
+	}
 	intrinsics["errors.New"] = errStub
+	// errors.Is over the values this engine builds: identity, then the chain of fmt.wrapError operands (custom Is/Unwrap
+	// methods are not consulted; the repository defines none)
+	intrinsics["errors.Is"] = func(e *Engine, st *State, a []Value, in ssa.Instruction) Value {
+		err, _ := a[0].(Iface)
+		target, _ := a[1].(Iface)
+		for depth := 0; depth < 32; depth++ {
+			if err.T == nil || target.T == nil {
+				return Bool(err.T == nil && target.T == nil)
+			}
+			if types.Identical(err.T, target.T) && sameValue(err.V, target.V) {
+				return Bool(true)
+			}
+			pt, ok := err.T.(*types.Pointer)
+			if !ok {
+				return Bool(false)
+			}
+			nt, ok := pt.Elem().(*types.Named)
+			if !ok || nt.Obj().Pkg() == nil || nt.Obj().Pkg().Path() != "fmt" || nt.Obj().Name() != "wrapError" {
+				return Bool(false)
+			}
+			inner, ok := e.obj(st, err.V.(Ptr).Obj).cells[1].(Iface)
+			if !ok {
+				return Bool(false)
+			}
+			err = inner
+		}
+		return Bool(false)
+	}
 	strStub := func(e *Engine, st *State, a []Value, in ssa.Instruction) Value { return "<formatted>" }
 	intrinsics["fmt.Sprintf"] = strStub
 	intrinsics["fmt.Sprint"] = strStub
